@@ -13,14 +13,27 @@ package mt
 // Genesis import (C12, C15): every class and every token of every class is stored, and the id sequences continue after
 // everything that was imported - the next class number is one more than the number of classes, the next token number
 // one more than the number of tokens of ALL classes - so that an id generated later never collides with an imported one.
+// ... and the balances of the owners are imported together with the supplies: every listed balance is added to its
+// holder and to the token's supply in one step, so "balances add up to the supply" holds for every token afterwards (C15)
+//@ axiom sumUpdG(F, a, d, m, v)
+//@   ensures uf("sumBal", set(F, a, d, m, v), d, m) == uf("sumBal", F, d, m) - ite(has(F, a, d, m), get(F, a, d, m), 0) + v
+//@ axiom sumFrameG(F, a, d, m, v, d2, m2)
+//@   ensures d2 != d || m2 != m ==> uf("sumBal", set(F, a, d, m, v), d2, m2) == uf("sumBal", F, d2, m2)
+// (the supply entry with an empty token id is the class's token count, not a token supply)
+//@ define allSum = forall d:Str :: forall m:Str :: m != "" ==> uf("sumBal", balances, d, m) == ite(has(supplies, d, m), get(supplies, d, m), 0)
 //@ func InitGenesis(ctx, k, data)
 //@   property C12, C15
+//@   requires allSum
+//@   uses sumUpdG(balances, anyaddr(1), "", "", 0)
+//@   uses sumFrameG(balances, anyaddr(1), "", "", 0, "", "")
 //@   requires forall j:Int :: 0 <= j && j < len(data.Collections) ==> !data.Collections[j].Denom.isnil && len(data.Collections[j].Mts) >= 0
 //@   requires forall n:Int :: 0 <= n && n <= len(data.Collections) ==> 0 <= MTC(data.Collections, n) && MTC(data.Collections, n) < 4611686018427387904
 //@   uses mtc0(data.Collections)
 //@   uses mtcS(data.Collections, 0)
 //@   modifies denoms, mts, supplies, balances, denomSeq, mtSeq
 //@   invariant #1 idx:  rangeindex >= 0 - 1 && rangeindex < len(data.Collections)
+//@   invariant #1 sum:  allSum
+//@   invariant #2 sum:  allSum
 //@   invariant #1 seq:  mtSequence == 1 + MTC(data.Collections, rangeindex + 1) && has(denomSeq) && get(denomSeq) == len(data.Collections) + 1
 //@   invariant #1 done: forall j:Int :: 0 <= j && j <= rangeindex ==> has(denoms, data.Collections[j].Denom.Id)
 //@   invariant #2 idx:  rangeindex_2 >= 0 - 1 && rangeindex_2 < len(c.Mts) && rangeindex_1 >= 0 - 1 && rangeindex_1 + 1 < len(data.Collections)
@@ -29,8 +42,12 @@ package mt
 //@   invariant #2 done: (forall j:Int :: 0 <= j && j <= rangeindex_1 + 1 ==> has(denoms, data.Collections[j].Denom.Id))
 //@                      && (forall i:Int :: 0 <= i && i <= rangeindex_2 ==> has(mts, c.Denom.Id, c.Mts[i].Id))
 //@   invariant #3 idx:  rangeindex >= 0 - 1
+//@   invariant #3 sum:  allSum
 //@   invariant #4 idx:  rangeindex >= 0 - 1
+//@   invariant #4 sum:  allSum
 //@   invariant #5 idx:  rangeindex >= 0 - 1
+//@   invariant #5 sum:  allSum
+//@   ensures @C15 conserved: allSum
 //@   ensures mt_sequence:    has(mtSeq) && get(mtSeq) == 1 + MTC(data.Collections, len(data.Collections))
 //@   ensures denom_sequence: has(denomSeq) && get(denomSeq) == len(data.Collections) + 1
 //@   ensures classes_stored: forall j:Int :: 0 <= j && j < len(data.Collections) ==> has(denoms, data.Collections[j].Denom.Id)
